@@ -76,7 +76,8 @@ def render_stmt(s, ind):
     if k in ("abort", "return", "pass", "break", "continue"):
         return [p + k + ((" " + s["expr"]) if s.get("expr") else "")]
     if k == "raw":
-        return [p + s["text"]]
+        # "@IND@" after a newline stands for the indentation of the statement (several lines in one planted statement)
+        return [p + s["text"].replace("@IND@", p)]
     raise ValueError(k)
 
 
@@ -214,6 +215,8 @@ class Gen:
             kinds += [("show", 4), ("refshow", 2), ("alias", 2)]
         if self.allow_actions and self.use_ref_helper:
             kinds.append(("ref_helper", 2))
+        if self.allow_vars:
+            kinds.append(("flow_ctl", 1.5))
         kinds.append(("abort", 0.4))
         kinds.append(("return", 0.3))
         k = d.weighted([x for x in kinds if x[1] > 0], key, "kind")
@@ -254,8 +257,14 @@ class Gen:
                     {"k": "if", "cond": "%s == 1" % v, "then": self.stmt(i, depth + 1, (key, "then")), "else": self.stmt(i, depth + 1, (key, "else")) if d.chance(0.5, key, "helse") else None}]
         if k == "while":
             v = "$i%d" % depth
-            return [{"k": "assign", "var": v, "expr": "0"},
-                    {"k": "while", "cond": "%s < %d" % (v, d.randint(1, 2, key, "iters")), "body": [self.wait_external((key, "ww")), self.marker((key, "wm")), {"k": "assign", "var": v, "expr": "%s + 1" % v}]}]
+            body = [self.wait_external((key, "ww")), self.marker((key, "wm")), {"k": "assign", "var": v, "expr": "%s + 1" % v}]
+            iters = d.randint(1, 2, key, "iters")
+            jump = d.weighted([("none", 5), ("break", 2), ("continue", 2)], key, "jump")
+            if jump != "none":
+                # leaving the loop / the iteration early (after the counter moved on, so the loop still ends)
+                iters += 1
+                body += [{"k": "if", "cond": "%s == 1" % v, "then": [{"k": jump}], "else": None}, self.marker((key, "wm2"))]
+            return [{"k": "assign", "var": v, "expr": "0"}, {"k": "while", "cond": "%s < %d" % (v, iters), "body": body}]
         if k == "group" and self.allow_actions and d.chance(0.8 if self.action_scope_bias else 0.4, key, "agroup"):
             # await-group with actions (and optionally a flow): the scope stops the losers of an or-group
             op = d.choice(["and", "or", "or"], key, "gop")
@@ -317,6 +326,23 @@ class Gen:
             aref = "$" + self.fresh("a")
             return [w, {"k": "start_action", "action": name, "args": {par: self.fresh("s")}, "ref": aref}, self.wait_external((key, "rf2")),
                     {"k": "raw", "text": "send %s(n=%s.name, a=%s.name)" % (self.fresh("M"), ref, aref)}]
+        if k == "flow_ctl":
+            # a started flow held in a reference: stopped through the reference, or waited for through it
+            tgt = self.flow_ref(i, key)
+            if not tgt:
+                return [self.marker(key)]
+            ref = "$" + self.fresh("fr")
+            what = d.weighted([("stop", 3), ("finished", 2), ("either", 2)], key, "fctl")
+            out = [{"k": "start_flow", "flow": tgt, "ref": ref}, self.wait_external((key, "fw"))]
+            if what == "stop":
+                out.append({"k": "send_ref", "ref": ref, "member": "Stop"})
+            elif what == "finished":
+                out.append({"k": "match_ref", "ref": ref, "member": "Finished"})
+            else:
+                w = self.wait_external((key, "fw2"))
+                out.append({"k": "group", "op": "match", "formula": {"op": "or", "args": ["%s.Finished()" % ref, "%s.Failed()" % ref, "%s(%s)" % (w["ev"], render_args(w["args"]))]}})
+            out.append(self.marker((key, "fm")))
+            return out
         if k == "abort":
             return [{"k": "abort"}]
         if k == "return":
